@@ -55,3 +55,37 @@ Example C04_example_size :
   msg_size_body ex_schema 0 ex_msg = N.of_nat (length (msg_encode ex_schema 0 ex_msg)) /\
   msg_size_body ex_schema 0 ex_msg = 149.
 Proof. vm_compute. split; reflexivity. Qed.
+
+(* ---------- Tier T: the generated scalar coders (internal/impl/codec_gen.go) ----------
+   Over Gen/CodecGenTable.v, regenerated from codec_gen.go on every run (see Props/C03.v and
+   Msg/CodecGenP.v).  For every size* function there is an append* function of the same kind and
+   variant in the table, with the same NoZero test; the size expression (protowire.SizeVarint(conv),
+   SizeFixed32(), SizeFixed64(), SizeBytes(len(conv))) evaluates to the number of bytes the append
+   function's protowire.Append*(b, conv) writes -- which is the model's closed form [msg_size_scalar]
+   and the length of the model's [msg_enc_scalar] -- for every value of the kind whose varints fit
+   uint64.  (That the packed variants compute the length prefix with the same size expression is part
+   of C03_go_codecgen_classified: [r_same].) *)
+Require Import PB.Gen.CodecGenTable PB.Msg.CodecGenP.
+
+Theorem C04_go_codecgen_size_matches_append :
+  forall r, In r funcs -> r_role r = role_size ->
+    exists sk wfs cs a, row_kind r = Some sk /\ row_size r = Some (wfs, cs) /\
+      In a funcs /\ r_role a = role_append /\ r_kind a = r_kind r /\ r_variant a = r_variant r /\
+      r_zero a = r_zero r /\
+      forall s, sk_ok sk s = true -> msg_wval_ok (sk_enc sk s) = true ->
+        size_sem wfs cs s = Some (N.of_nat (length (msg_enc_scalar sk s))) /\
+        size_sem wfs cs s = Some (msg_size_scalar sk s).
+Proof. exact codecgen_size_matches_append. Qed.
+Print Assumptions C04_go_codecgen_size_matches_append.
+
+(* non-vacuity: sizeSint32PackedSlice is a size row; its element size is SizeVarint of the zigzag value *)
+Example C04_example_codecgen_row :
+  exists r, row_named fn_sizeSint32PackedSlice r /\ r_role r = role_size /\
+            row_size r = Some (WfVarint, Some EcZigZag).
+Proof.
+  destruct (find_row fn_sizeSint32PackedSlice) as [r|] eqn:E; [|vm_compute in E; discriminate E].
+  exists r. split; [apply find_row_named; exact E|]. vm_compute in E. inversion E. vm_compute. repeat split.
+Qed.
+Example C04_example_codecgen_sem :
+  size_sem WfVarint (Some EcZigZag) (SZ (-64)) = Some 1 /\ size_sem WfVarint (Some EcZigZag) (SZ 64) = Some 2.
+Proof. vm_compute. split; reflexivity. Qed.
